@@ -69,7 +69,10 @@ void simTick() {
 
 void setupRoot() {
   Bypass b;
-  R.root = "/dev/shm/oomd-verif/" + R.prop + "-" + hex16(R.seed);
+  // the path is an input (hash-ordered containers key on absolute paths): a
+  // standalone replay of a sub-run must use the root of the run it came from
+  R.root = "/dev/shm/oomd-verif/" + R.plan.get("root_tag", R.prop).asString() +
+      "-" + hex16(R.seed);
   R.cgfs = R.root + "/cg";
   R.procfs = R.root + "/proc";
   rmrf(R.root);
